@@ -383,7 +383,7 @@ def corr_closure(ctx, gen):
 def witnesses(ctx):
     """the Lean witnesses of the unsound key kinds, replayed on the implementation as fixed two-step
     histories (pool object vs fresh object)"""
-    for grp in (_w_legendre, _w_global, _w_hash, _w_solvers, _w_twins):
+    for grp in (_w_legendre, _w_global, _w_hash, _w_solvers, _w_twins, _w_constructors):
         try:
             grp(ctx)
         except Exception as ex:
@@ -576,6 +576,77 @@ def _w_twins(ctx):
                 "x_after": x0}
     _check(ctx, "system tuple of mpc() solved twice", "mpc-twice", twice, once,
            {"mesh": "MeshTri().refined(2)", "elem": "ElementTriP1", "S": "boundary DOFs", "M": "first interior DOF"})
+
+
+def _w_constructors(ctx):
+    """the caller's arrays handed to a mesh constructor (already of the internal dtype and layout, so that no
+    conversion copy protects them) and the meshes handed to from_mesh stay bit-for-bit unchanged, also after
+    operations on the constructed mesh"""
+    import skfem
+    from .. import meshes as M
+    rng = random.Random(f"C15ctor:{ctx.seed}")
+
+    def snap(*arrs):
+        return [(a.dtype.str, a.shape, a.tobytes()) for a in arrs]
+
+    def report(what, replay):
+        ctx.count("witness-fails:ctor")
+        ctx.violation(what, replay, {"what": "operand-mutated", "op": "constructor"})
+    for kind in ("line", "tri", "quad", "tet", "hex", "wedge"):
+        for rep in range(2 if ctx.tier == "quick" else 8):
+            m0, info = M.gen_first_order(rng, kind)
+            p = np.ascontiguousarray(m0.p, dtype=np.float64).copy()
+            t = np.ascontiguousarray(m0.t, dtype=np.int32).copy()
+            if kind in ("tri", "tet", "line"):
+                # columns NOT in ascending order (the triangle class sorts them)
+                for k in range(t.shape[1]):
+                    col = list(t[:, k])
+                    rng.shuffle(col)
+                    t[:, k] = col
+                if kind == "tet":
+                    t = np.ascontiguousarray(m0.t, dtype=np.int32).copy()   # (orientation matters for nothing here)
+            before = snap(p, t)
+            ctx.case({"witness": "constructor", "cls": type(m0).__name__, "t": t.tolist()}, nontrivial=True)
+            ctx.count("witness")
+            try:
+                m = type(m0)(p, t)
+                if snap(p, t) != before:
+                    report(f"{type(m0).__name__}(p, t) modified the caller's arrays",
+                           {"cls": type(m0).__name__, "p": np.frombuffer(before[0][2]).tolist(),
+                            "t": np.frombuffer(before[1][2], dtype=np.int32).reshape(before[1][1]).tolist()})
+                    continue
+                m.facets, m.t2f, m.f2t, m.boundary_nodes()
+                if kind != "wedge" and m.nelements <= 40:
+                    m.refined(1)
+                if kind in ("tri", "tet", "line"):
+                    m.refined(np.array([0], dtype=np.int64))
+                m.translated(tuple(0.5 for _ in range(m.dim()))), m.with_subdomains({"s": np.array([0])})
+                if snap(p, t) != before:
+                    report(f"operations on {type(m0).__name__}(p, t) modified the caller's arrays",
+                           {"cls": type(m0).__name__, "t": np.frombuffer(before[1][2], dtype=np.int32)
+                            .reshape(before[1][1]).tolist()})
+            except Exception as ex:
+                ctx.count("ctor:raises:" + exc_kind(ex))
+    # from_mesh chains: the source mesh and the intermediate one stay unchanged
+    for cls2, mk in ((skfem.MeshTri2, lambda: skfem.MeshTri.init_sqsymmetric().refined().oriented()),
+                     (skfem.MeshTri2, lambda: skfem.MeshTri().refined(2)),
+                     (skfem.MeshQuad2, lambda: skfem.MeshQuad().refined(1)),
+                     (skfem.MeshTet2, lambda: skfem.MeshTet().refined(1)),
+                     (skfem.MeshHex2, lambda: skfem.MeshHex().refined(1))):
+        try:
+            m = mk()
+            m.facets, m.t2f
+            M2 = cls2.from_mesh(m)
+            before = snap(m.p, m.t, M2.p, M2.t)
+            ctx.case({"witness": "from_mesh", "cls": cls2.__name__}, nontrivial=True)
+            ctx.count("witness")
+            M2.refined(1)
+            M2.facets, M2.boundary_nodes()
+            if snap(m.p, m.t, M2.p, M2.t) != before:
+                report(f"{cls2.__name__}.from_mesh(m).refined() modified m or the second-order mesh",
+                       {"cls": cls2.__name__, "source": type(m).__name__})
+        except Exception as ex:
+            ctx.count("from_mesh:raises:" + exc_kind(ex))
 
 
 def _w_solvers(ctx):
